@@ -19,6 +19,7 @@ FeeCases == {[check |-> ck, gas |-> g, fee |-> f, node |-> n, chain |-> c] : ck 
 Oracle == [k |-> "oracle"]
 SendM  == [k |-> "send"]
 Dep(q) == [k |-> "deposit", seq |-> q]
+DepB(q) == [k |-> "deposit", seq |-> q, bounce |-> TRUE]    \* a deposit to a blocked recipient: processed at its sequence, refunded to the L1 - fresh, not redundant
 Exec(ms) == [k |-> "exec", inner |-> ms]
 Atoms == {Oracle, SendM, Dep(3), Exec(<<Oracle>>), Exec(<<Oracle, Oracle>>), Exec(<<Exec(<<Oracle>>)>>), Exec(<<SendM>>), Exec(<< >>)}
 MsgLists == {<< >>} \cup {<<a>> : a \in Atoms} \cup {<<a, b>> : a \in {Oracle, SendM, Exec(<<Oracle>>)}, b \in {Oracle, SendM, Exec(<<Oracle>>)}}
@@ -28,7 +29,7 @@ People == {"w1", "w2", "u1"}
 FreeCases == {[payer |-> p, granter |-> g, whitelist |-> w] : p \in People, g \in People \cup {""}, w \in SUBSET {"w1", "w2"}}
 
 DepSeqs == {1, 2, 3, 4, 5}
-RMsgs == {SendM} \cup {Dep(q) : q \in DepSeqs}
+RMsgs == {SendM} \cup {Dep(q) : q \in DepSeqs} \cup {DepB(3), DepB(2)}
 RLists == {<<a>> : a \in RMsgs} \cup {<<a, b>> : a \in RMsgs, b \in RMsgs}
           \cup (IF Thorough THEN {<<a, b, c>> : a \in RMsgs, b \in RMsgs, c \in RMsgs} ELSE {<<Dep(1), Dep(2), Dep(3)>>, <<Dep(3), Dep(4), Dep(5)>>, <<Dep(1), SendM, Dep(2)>>})
 RedundantCases == {[mode |-> m, simulate |-> s, next |-> 3, msgs |-> ms] : m \in {"check", "recheck", "deliver"}, s \in BOOLEAN, ms \in RLists}
